@@ -84,8 +84,12 @@ def gen_case(rnd, spec):
                 # a pool may report its fractions as any number: whole numbers, exact rationals
                 frac = lambda: rnd.choice([0, 1, True, ["F", rnd.randint(0, 10), 10], ["F", rnd.randint(0, 3), 3], ["D", "0.%d" % rnd.randint(0, 99)]])  # noqa: E731
                 ops.append(["state", rnd.choice([0, 1, 10, rnd.randint(0, 100)]), frac(), frac()])
-        elif k < 0.95:
+        elif k < 0.93:
             ops.append(["outside", rnd.randint(0, 60)])
+        elif k < 0.95:
+            # the pool refuses the next write that reaches it (over quota, backend away): that write raises, nothing else changes
+            ops.append(["refuse"])
+            ops.append(["write", rnd.randint(0, 60)])
         elif k < 0.98:
             # a Logger is reconfigured after construction through its public attributes
             ops.append(["rename", rnd.randint(0, 5), rnd.choice(["verif.c16.renamed", "verif.c16.a", None, "", "verif.c16.other.x"])])
@@ -116,6 +120,10 @@ class Capture(logging.Handler):
             return  # attached to the root logger: somebody else's record
         self.records.append((record, self.pool.writes, dict(self.pool.peek())))
         self.kept.append(dict(record.args) if isinstance(record.args, dict) else record.args)  # what the record said when it was emitted
+
+
+class QuotaExceeded(Exception):
+    pass
 
 
 def execute(case, result):
@@ -214,11 +222,20 @@ def execute(case, result):
                 n_records = len(capture.records)
                 writes0 = pool.writes
                 d0 = pool.peek()["demand"]
+                refusal = pool.refuse_next if reaches_pool else None
                 try:
                     top.demand = value
                 except Exception as err:
-                    bad("write raised %r" % (err,))
-                    continue
+                    if err is not refusal:
+                        bad("write raised %r" % (err,))
+                        continue
+                    result.count("refused_writes_checked")
+                else:
+                    if refusal is not None:
+                        bad("the pool refused the write with %r but the write through the stack raised nothing" % (refusal,))
+                        continue
+                finally:
+                    pool.refuse_next = None
                 new = capture.records[n_records:]
                 result.count("writes_checked")
                 if len(new) != len(expected):
@@ -246,7 +263,10 @@ def execute(case, result):
                         record.getMessage()
                     except Exception as err:
                         bad("record message does not format: %r" % (err,))
-                if plain_only:
+                if refusal is not None:
+                    if pool.writes != writes0 or pool.peek()["demand"] != d0:
+                        bad("a refused write changed the pool")
+                elif plain_only:
                     got = pool.peek()["demand"]
                     if pool.writes != writes0 + 1 or got != value or type(got) is not type(value):
                         bad("write of %r through a transparent stack left the pool with %r (%d writes)" % (value, got, pool.writes - writes0))
@@ -261,6 +281,8 @@ def execute(case, result):
                     result.count("states_with_fractions_that_are_not_floats")
             elif op[0] == "outside":
                 pool.poke(demand=op[1])
+            elif op[0] == "refuse":
+                pool.refuse_next = QuotaExceeded("the pool refuses this demand")
             elif op[0] in ("rename", "relevel"):
                 loggers = [layer for kind, _, layer in layers if kind == "Logger"]
                 if loggers:
